@@ -16,6 +16,7 @@ import FwdVerif.Driver.C07
 import FwdVerif.Driver.C15
 import FwdVerif.Driver.H2
 import FwdVerif.Driver.C13
+import FwdVerif.Driver.C12
 
 open FwdVerif
 
@@ -36,6 +37,7 @@ def dispatch (line : String) : String :=
   | "C09" :: rest => H2.handle rest
   | "C10" :: rest => H2.handle rest
   | "C13" :: rest => C13.handle rest
+  | "C12" :: rest => C12.handle rest
   | ["ping"] => "pong"
   | _ => "bad-op"
 
